@@ -580,7 +580,7 @@ func vtRunCaseBody(r *vtRun) []string {
 		r.emit("note", "text", "NewToolNode: "+err.Error())
 		return finish("setup")
 	}
-	var invoke func(*schema.Message) ([]*schema.Message, error)
+	var invoke, plainInvoke func(*schema.Message) ([]*schema.Message, error)
 	var stream func(*schema.Message) (*schema.StreamReader[[]*schema.Message], error)
 	if c.Graph {
 		g := NewGraph[*schema.Message, []*schema.Message]()
@@ -598,11 +598,13 @@ func vtRunCaseBody(r *vtRun) []string {
 			return finish("setup")
 		}
 		invoke = func(m *schema.Message) ([]*schema.Message, error) { return run.Invoke(ctx, m, WithToolsNodeOption(tnOpts...)) }
+		plainInvoke = func(m *schema.Message) ([]*schema.Message, error) { return run.Invoke(ctx, m) }
 		stream = func(m *schema.Message) (*schema.StreamReader[[]*schema.Message], error) {
 			return run.Stream(ctx, m, WithToolsNodeOption(tnOpts...))
 		}
 	} else {
 		invoke = func(m *schema.Message) ([]*schema.Message, error) { return tn.Invoke(ctx, m, tnOpts...) }
+		plainInvoke = func(m *schema.Message) ([]*schema.Message, error) { return tn.Invoke(ctx, m) }
 		stream = func(m *schema.Message) (*schema.StreamReader[[]*schema.Message], error) { return tn.Stream(ctx, m, tnOpts...) }
 	}
 	input := &schema.Message{Role: schema.Assistant}
@@ -687,6 +689,30 @@ func vtRunCaseBody(r *vtRun) []string {
 	if r.sink != nil {
 		r.sink.WriteString(last + "\n")
 		r.sink.Flush()
+	}
+	if c.OptList && atomic.LoadInt32(&r.termSeen) != 0 && note == "" {
+		// a second, plain call on the SAME node / compiled graph: the tool list of the first call was a call option, so this call
+		// sees the configured tools only (the decoy "tconf"); it is written as a case of its own, "<id>+post"
+		r.mu.Unlock()
+		r.emit("case", "id", c.ID+"+post", "mode", "invoke", "graph", c.Graph, "handler", c.Handler, "calls", calls,
+			"tools", []map[string]any{{"name": "tconf", "kind": "inv", "beh": "ok", "chunks": 1}}, "sched", []int{}, "wrap", c.Wrap,
+			"optlist", false, "deep", false, "jsonargs", c.JSONArg)
+		func() {
+			defer func() {
+				if p := recover(); p != nil {
+					r.logEscaped(p, "call")
+				}
+			}()
+			out, err := plainInvoke(input)
+			if err != nil {
+				r.logError(err, "call")
+				return
+			}
+			r.emit("result", "out", vtMsgList(out), "chunks", 0)
+		}()
+		vtSpinUntil(func() bool { return atomic.LoadInt32(&r.active) == 0 }, vtStepTimeout)
+		r.emit("end", "forced", true, "note", "plain call after a call with WithToolList")
+		r.mu.Lock()
 	}
 	return r.lines
 }
